@@ -270,6 +270,13 @@ class Summaries(object):
             out |= self.elem[f.qualname][it.id]
         if isinstance(it, ast.Call) and isinstance(it.func, ast.Name) and it.func.id in ("list", "sorted", "reversed", "tuple", "iter", "enumerate") and it.args:
             return self.elem_origin(it.args[0], f, node)
+        if isinstance(it, (ast.GeneratorExp, ast.ListComp, ast.SetComp)):
+            # elements of a comprehension: the origins of the element expression (the parts of a tuple element), with the
+            # comprehension variables standing for the elements of their iterables (_comp_targets)
+            parts = it.elt.elts if isinstance(it.elt, ast.Tuple) else [it.elt]
+            for x in parts:
+                out |= set(o for o in self.origin(x, f, node) if o[0] != "CONST")
+            return out or set([("FRESH", "")])
         if isinstance(it, ast.Call):
             # generator methods of the model: itersections / iterproperties / itervalues
             gen = False
